@@ -4,8 +4,9 @@
    A time value is a tagged quadruple [kind, base, k, q]:
      kind   "float" (seconds), "delta" (timedelta), "abs" (timezone-aware datetime)
      base   an opaque magnitude class, ordered by Rank; the codec makes it concrete
-            (n1e9 = -10^9 s, m0 = just below zero, epoch, p1e9 = +10^9 s, y9000 = year 9000 on a
-            grid a float still resolves, y9000c = year 9000 at microsecond grain)
+            (n1e9 = -10^9 s, m0 = just below zero, epoch, p1e9 = +10^9 s, y2106 = 2^32 s where the
+            grain of a float is just under a microsecond, y9000 = year 9000 on a grid a float still
+            resolves, y9000c = year 9000 at microsecond grain)
      k      a small offset in UNITS of that base (1 microsecond for the bases where a float
             resolves microseconds; for a Coarse base the unit is still 1 microsecond but a
             float there canNOT resolve it)
@@ -31,7 +32,8 @@ CONSTANTS Bases,     \* magnitude classes, e.g. {"n1e9", "epoch", "p1e9", "y9000
           Quarters   \* q offered, subset of 0..3
 
 Kinds == {"float", "delta", "abs"}
-Rank(b) == CASE b = "n1e9" -> 0 [] b = "m0" -> 1 [] b = "epoch" -> 2 [] b = "p1e9" -> 3 [] b = "y9000" -> 4 [] b = "y9000c" -> 5 [] OTHER -> 6
+Rank(b) == CASE b = "n1e9" -> 0 [] b = "m0" -> 1 [] b = "epoch" -> 2 [] b = "p1e9" -> 3 [] b = "y2106" -> 4 [] b = "y9000" -> 5
+               [] b = "y9000c" -> 6 [] OTHER -> 7
 
 V(kd, b, k, q) == [kind |-> kd, base |-> b, k |-> k, q |-> q]
 Values == {V(kd, b, k, q) : kd \in Kinds, b \in Bases, k \in Offs, q \in Quarters}
